@@ -256,7 +256,8 @@ func (im *impl) checkStored(where string) {
 }
 
 // mkCommit builds (and signs, cached) the real commitment for the abstract description.
-func (im *impl) mkCommit(nodeN, sched int, round uint64, kind int, fail, sigOk bool) *commitment.ExecutorCommitment {
+// fail is the failure code put on the wire: 0 none, 1 unknown, 2 state unavailable, others out of range.
+func (im *impl) mkCommit(nodeN, sched int, round uint64, kind int, fail int, sigOk bool) *commitment.ExecutorCommitment {
 	key := fmt.Sprintf("%d/%d/%d/%d/%d/%v/%v", im.round, nodeN, sched, round, kind, fail, sigOk)
 	if ec, ok := signCache[key]; ok {
 		return ec
@@ -281,8 +282,8 @@ func (im *impl) mkCommit(nodeN, sched int, round uint64, kind int, fail, sigOk b
 			},
 		},
 	}
-	if fail {
-		ec.Header.SetFailure(commitment.FailureUnknown)
+	if fail != 0 {
+		ec.Header.SetFailure(commitment.ExecutorCommitmentFailure(fail))
 	}
 	if err := ec.Sign(signers[nodeN], rtID); err != nil {
 		panic(err)
@@ -292,6 +293,18 @@ func (im *impl) mkCommit(nodeN, sched int, round uint64, kind int, fail, sigOk b
 	}
 	signCache[key] = ec
 	return ec
+}
+
+// wireOf tells the model what Verify (signature, checked first) and ValidateBasic make of the wire form:
+// 1 fine, 0 bad signature, 2 malformed (here: a failure code outside none/unknown/state-unavailable).
+func wireOf(sigOk bool, ec *commitment.ExecutorCommitment) string {
+	switch {
+	case !sigOk:
+		return "0"
+	case ec.Header.Failure > commitment.FailureStateUnavailable:
+		return "2"
+	}
+	return "1"
 }
 
 func addErr(err error) string {
@@ -505,9 +518,9 @@ func runImpl(ops []string) (lines []string, panicked string) {
 				var words []string
 				for _, cw := range w[1:] {
 					f := strings.Split(cw, ",")
-					ec := im.mkCommit(int(u(f[1])), int(u(f[2])), u(f[3]), int(u(f[4])), f[5] == "1", f[0] == "1")
+					ec := im.mkCommit(int(u(f[1])), int(u(f[2])), u(f[3]), int(u(f[4])), int(u(f[5])), f[0] == "1")
 					ecs = append(ecs, ec)
-					words = append(words, f[0]+","+im.ecFields(ec, ","))
+					words = append(words, wireOf(f[0] == "1", ec)+","+im.ecFields(ec, ","))
 				}
 				if !im.app {
 					panic("tx outside app mode")
@@ -523,7 +536,7 @@ func runImpl(ops []string) (lines []string, panicked string) {
 			case "commit":
 				// executorCommit (transactions.go:95-112): verify, then add.
 				sigOk := w[1] == "1"
-				ec := im.mkCommit(int(u(w[2])), int(u(w[3])), u(w[4]), int(u(w[5])), w[6] == "1", sigOk)
+				ec := im.mkCommit(int(u(w[2])), int(u(w[3])), u(w[4]), int(u(w[5])), int(u(w[6])), sigOk)
 				var res string
 				vkey := fmt.Sprintf("%d/%s", im.round, strings.Join(w[1:], "/"))
 				if v, ok := verCache[vkey]; ok && cacheVer {
@@ -550,14 +563,14 @@ func runImpl(ops []string) (lines []string, panicked string) {
 					im.accepted(ec)
 					im.checkStored("after the commitment")
 				}
-				line = fmt.Sprintf("commit %s %s %s", w[1], im.ecFields(ec, " "), res)
+				line = fmt.Sprintf("commit %s %s %s", wireOf(sigOk, ec), im.ecFields(ec, " "), res)
 				if im.app {
 					// through the application a single commitment is a one-commitment transaction:
 					// atomic (a rejected one leaves the stored pool untouched also beyond the wrap bound)
-					line = fmt.Sprintf("tx %s %s,%s", res, w[1], im.ecFields(ec, ","))
+					line = fmt.Sprintf("tx %s %s,%s", res, wireOf(sigOk, ec), im.ecFields(ec, ","))
 				}
 			case "rawadd":
-				ec := im.mkCommit(int(u(w[1])), int(u(w[2])), u(w[3]), int(u(w[4])), w[5] == "1", true)
+				ec := im.mkCommit(int(u(w[1])), int(u(w[2])), u(w[3]), int(u(w[4])), int(u(w[5])), true)
 				if commitment.VerifyExecutorCommitment(ctx, im.lastBlock, rt, im.committee.ValidFor, ec, nil, nil) != nil {
 					im.specOff = true // outside the verified histories
 				}
@@ -646,6 +659,8 @@ func signature_(detail string) string {
 		switch {
 		case strings.Contains(detail, "not the chosen scheduler's own"):
 			return "finalized-header-not-schedulers-commitment"
+		case strings.Contains(detail, "own failure-indicating commitment accepted"):
+			return "spec-scheduler-failure-accepted"
 		case strings.Contains(detail, "MayFinalize"):
 			return "spec-mayfinalize"
 		case strings.Contains(detail, "non-member"):
@@ -837,13 +852,14 @@ func genCase(r *hlib.Rng, nops int, res *hlib.Result) []string {
 	}
 	emitCommit := func(nodeN, sched int) {
 		kind := 0
-		fail := false
+		fail := 0
 		k := r.Intn(100)
 		switch {
 		case k >= pAgree && k < pAgree+(100-pAgree)/2:
 			kind = 1 + r.Intn(2)
 		case k >= pAgree+(100-pAgree)/2:
-			fail = true
+			// every failure code: unknown, state unavailable, out of range
+			fail = []int{1, 1, 2, 2, 2, 3, 200}[r.Intn(7)]
 		}
 		rd := round
 		if r.Chance(1, 40) {
@@ -854,17 +870,17 @@ func genCase(r *hlib.Rng, nops int, res *hlib.Result) []string {
 		switch {
 		case r.Chance(1, 12):
 			flushTx()
-			ops = append(ops, fmt.Sprintf("rawadd %d %d %d %d %s", nodeN, sched, rd, kind, b01(fail)))
+			ops = append(ops, fmt.Sprintf("rawadd %d %d %d %d %d", nodeN, sched, rd, kind, fail))
 			res.Count("op:rawadd")
 		case appMode && (!sent[pair] || r.Chance(1, 6)):
 			// joins the pending transaction (a repeated pair mostly goes alone: it fails its transaction)
-			batch = append(batch, fmt.Sprintf("%s,%d,%d,%d,%d,%s", b01(sigOk), nodeN, sched, rd, kind, b01(fail)))
+			batch = append(batch, fmt.Sprintf("%s,%d,%d,%d,%d,%d", b01(sigOk), nodeN, sched, rd, kind, fail))
 			if len(batch) >= batchMax {
 				flushTx()
 			}
 		default:
 			flushTx()
-			ops = append(ops, fmt.Sprintf("commit %s %d %d %d %d %s", b01(sigOk), nodeN, sched, rd, kind, b01(fail)))
+			ops = append(ops, fmt.Sprintf("commit %s %d %d %d %d %d", b01(sigOk), nodeN, sched, rd, kind, fail))
 			res.Count("op:commit")
 		}
 		sent[pair] = true
@@ -1088,7 +1104,7 @@ func exhaustive(depth int, limit int, res *hlib.Result, fail func(ops []string, 
 			var alphabet []string
 			for _, n := range sc.nodes {
 				for _, s := range sc.workers {
-					for _, kf := range []string{"0 0", "1 0", "0 1"} {
+					for _, kf := range []string{"0 0", "1 0", "0 1", "0 2"} {
 						alphabet = append(alphabet, fmt.Sprintf("commit 1 %d %d %d %s", n, s, round, kf))
 					}
 				}
@@ -1211,7 +1227,16 @@ func multisets(maxNodes, maxAppNodes int, res *hlib.Result, fail func(ops []stri
 	}
 	b := &batcher{res: res, fail: fail}
 	const round = 4
-	behaviours := []string{"0 0", "1 0", "0 1"} // agree, dissent, failure
+	// agree, dissent, failure (failure code unknown / state unavailable alternating with node and stragglers)
+	behaviour := func(b, i, stragglers int) string {
+		switch b {
+		case 0:
+			return "0 0"
+		case 1:
+			return "1 0"
+		}
+		return fmt.Sprintf("0 %d", 1+(i+stragglers)%2)
+	}
 	for _, sc := range scopes {
 		if len(sc.nodes) > maxNodes {
 			continue
@@ -1227,13 +1252,13 @@ func multisets(maxNodes, maxAppNodes int, res *hlib.Result, fail func(ops []stri
 				build := func(order []int) {
 					ops := []string{head}
 					for _, i := range order {
-						ops = append(ops, fmt.Sprintf("commit 1 %d %d %d %s", sc.nodes[i], sched, round, behaviours[opt[i]-1]),
+						ops = append(ops, fmt.Sprintf("commit 1 %d %d %d %s", sc.nodes[i], sched, round, behaviour(opt[i]-1, i, stragglers)),
 							fmt.Sprintf("process %d 0", stragglers))
 					}
 					ops = append(ops, fmt.Sprintf("process %d 1", stragglers))
 					for i := 0; i < k; i++ {
 						if opt[i] >= 4 {
-							ops = append(ops, fmt.Sprintf("commit 1 %d %d %d %s", sc.nodes[i], sched, round, behaviours[opt[i]-4]),
+							ops = append(ops, fmt.Sprintf("commit 1 %d %d %d %s", sc.nodes[i], sched, round, behaviour(opt[i]-4, i, stragglers)),
 								fmt.Sprintf("process %d 0", stragglers))
 						}
 					}
@@ -1248,11 +1273,11 @@ func multisets(maxNodes, maxAppNodes int, res *hlib.Result, fail func(ops []stri
 					aops := []string{"app" + head}
 					var t1, t2 []string
 					for _, i := range order {
-						t1 = append(t1, fmt.Sprintf("1,%d,%d,%d,%s", sc.nodes[i], sched, round, strings.ReplaceAll(behaviours[opt[i]-1], " ", ",")))
+						t1 = append(t1, fmt.Sprintf("1,%d,%d,%d,%s", sc.nodes[i], sched, round, strings.ReplaceAll(behaviour(opt[i]-1, i, stragglers), " ", ",")))
 					}
 					for i := 0; i < k; i++ {
 						if opt[i] >= 4 {
-							t2 = append(t2, fmt.Sprintf("1,%d,%d,%d,%s", sc.nodes[i], sched, round, strings.ReplaceAll(behaviours[opt[i]-4], " ", ",")))
+							t2 = append(t2, fmt.Sprintf("1,%d,%d,%d,%s", sc.nodes[i], sched, round, strings.ReplaceAll(behaviour(opt[i]-4, i, stragglers), " ", ",")))
 						}
 					}
 					if len(t1) > 0 {
@@ -1294,7 +1319,9 @@ func multisets(maxNodes, maxAppNodes int, res *hlib.Result, fail func(ops []stri
 						return
 					}
 					if sc.nodes[i] == sched {
-						for _, o := range []int{0, 1} { // the scheduler proposes (agreeing with itself) or never
+						// the scheduler proposes (agreeing with itself), never commits, or sends a
+						// failure indication for its own proposal (must be refused)
+						for _, o := range []int{0, 1, 3} {
 							opt[i] = o
 							assign(i + 1)
 						}
